@@ -47,7 +47,7 @@ def gen_watcher(rng, name, profile):
             outs = [rng.choice(["true", "true", "false", "raise"]) for _ in range(rng.choice([1, 1, 2, 3]))]
             hooks[h] = {"out": outs, "ignore": rng.random() < 0.4}
         w["hooks"] = hooks
-    if rng.random() < 0.06:
+    if rng.random() < profile.get("max_age", 0.06):
         w["max_age"] = 1
         w["max_age_variance"] = rng.choice([0, 1, 2, 30])
     if rng.random() < profile.get("on_demand", 0.12):
@@ -238,7 +238,11 @@ def gen_request(rng, v, rid, profile):
                        # is then ignored by Watcher.set_opt (as respawn and max_retry are): `options` shows it unchanged
                        "max_age": rng.choice([0, 0, 1, 2, 5, True, "1", 1.5]),
                        "singleton": rng.choice([True, False, 1, "yes"])}[k]
-        if rng.random() < profile.get("set_hooks", 0.12):
+        if rng.random() < profile.get("set_np", 0.1):
+            # a plain `set numprocesses`, boundary values included (negative, zero, above a singleton's limit, not an integer)
+            opts = {"numprocesses": rng.choice([-2, -1, 0, 0, 1, 2, 3, 5, "3", 2.5, True])}
+        # (only in profiles whose oracles follow hooks installed at run time: C14, C11, C06, C03, and the profile-less bulk comparison)
+        if rng.random() < profile.get("set_hooks", 0.0):
             # a hook installed (or replaced) at run time: "dotted.name[,flag]"; by key `hooks.<name>` or through the `hooks` dict
             hn = rng.choice(HOOK_NAMES + ["before_start", "before_spawn", "after_spawn", "bogus_hook"])
             outs = "".join(rng.choice("ttfr") for _ in range(rng.choice([1, 1, 2, 3])))
@@ -739,7 +743,7 @@ RECIPES = {"unsignalable_stop": recipe_unsignalable_stop, "options_observe": rec
 
 def gen_scenario(rng, nops=None, profile=None):
     """returns (scenario, impl steps) — the implementation is run while generating"""
-    profile = profile or {}
+    profile = {"set_hooks": 0.12} if profile is None else profile
     scripted = []
     sc = None
     for name, p in (profile.get("recipes") or {}).items():
